@@ -187,6 +187,7 @@ impl<'a, E: Eviction, S, I> MutexGuard<'a, InflightManager<E, S, I>> {
     pub fn take(&self, hash: u64, key: &E::Key, id: Option<usize>) -> (r: Option<Waiters<E, S, I>>)
         requires id.is_none(), // @label insert_takes_inflight_entry_unconditionally
         ensures r == spec_inflight_take::<E, S, I>(hash, *key, id),
+            r.is_some() ==> r.unwrap()@.len() < usize::MAX, // a Vec of non-zero-sized notifiers cannot have usize::MAX elements
     { unimplemented!() }
 }
 
@@ -468,6 +469,119 @@ where
                 self.usage == old(self).usage,
                 self.capacity == old(self).capacity,
                 garbages@ == old(garbages)@ + records@.subrange(0, it.index@ as int),
+//@end
+
+//@fn foyer-memory/src/raw.rs :: impl~RawCacheShard<E, S, I>/fn emplace rules=assert-eq,flag-as-membership
+//@spec
+        requires
+            old(self).wf(), // @label requires_wf
+            // the record is new: neither indexed nor held by the eviction container (a fresh `Arc<Record>`)
+            !old(self).eviction.contents().contains(record.id()),
+            forall|k: E::Key| old(self).view().contains_key(k) ==> (#[trigger] old(self).view()[k]).id() != record.id(),
+            // weights fit machine arithmetic (assumption 7: sums of weights do not overflow usize)
+            old(self).usage + record.spec_weight() <= usize::MAX,
+            old(self).entries < usize::MAX,
+        ensures
+            final(self).wf(), // @label accounting_invariant_preserved
+            final(self).capacity == old(self).capacity, // @label capacity_unchanged
+            // C11 / C06: the waiters of this key are exactly what the in-flight table handed over for (hash, key, None)
+            final(notifiers)@ == (match spec_inflight_take::<E, S, I>(record.spec_hash(), record.spec_key(), None) { Some(v) => v@, None => Seq::empty() }), // @label notifiers_are_all_waiters_of_the_key
+            final(garbages)@.len() >= old(garbages)@.len(), // @label garbage_only_grows
+            final(garbages)@.subrange(0, old(garbages)@.len() as int) == old(garbages)@, // @label garbage_prefix_kept
+            // survivors are untouched (frame)
+            forall|k: E::Key| k != record.spec_key() && #[trigger] final(self).view().contains_key(k) ==> old(self).view().contains_key(k) && final(self).view()[k] == old(self).view()[k], // @label other_keys_unchanged_or_evicted
+            // ---- phantom (disk-only / filtered) insert: C01(e), C12
+            record.spec_props().spec_phantom() == Some(true) ==> {
+                &&& final(self).view() == old(self).view().remove(record.spec_key())
+                &&& final(self).eviction.contents() == (if old(self).view().contains_key(record.spec_key()) { old(self).eviction.contents().remove(old(self).view()[record.spec_key()].id()) } else { old(self).eviction.contents() })
+                &&& (old(self).view().contains_key(record.spec_key()) ==>
+                        final(garbages)@ == old(garbages)@.push((Event::Replace, old(self).view()[record.spec_key()])).push((Event::Remove, record)))
+                &&& (!old(self).view().contains_key(record.spec_key()) ==> final(garbages)@ == old(garbages)@.push((Event::Remove, record)))
+            }, // @label phantom_insert_removes_memory_copy_and_is_not_indexed
+            // ---- ordinary insert
+            record.spec_props().spec_phantom() != Some(true) ==> {
+                &&& final(self).view().contains_key(record.spec_key()) && final(self).view()[record.spec_key()] == record
+                &&& final(self).eviction.contents().contains(record.id())
+            }, // @label inserted_record_is_indexed_and_evictable
+            // C05 bound: within capacity afterwards unless the new entry alone is larger than the shard or nothing
+            // else is evictable (everything left is pinned)
+            record.spec_props().spec_phantom() != Some(true) ==>
+                final(self).usage <= final(self).capacity || record.spec_weight() > final(self).capacity
+                || final(self).eviction.victims().subset_of(set![record.id()]), // @label within_capacity_unless_oversize_or_rest_unevictable
+            // C05 no over-eviction: if it fits without evicting, nothing is evicted
+            record.spec_props().spec_phantom() != Some(true) && old(self).usage + record.spec_weight() <= old(self).capacity ==>
+                forall|k: E::Key| k != record.spec_key() && old(self).view().contains_key(k) ==> #[trigger] final(self).view().contains_key(k), // @label no_eviction_when_it_fits
+            // C13: every new garbage is Evict or Replace of a record that was indexed and is not any more; Replace only
+            // for the old copy of the same key, as the last element
+            record.spec_props().spec_phantom() != Some(true) ==> {
+                &&& forall|i: int| old(garbages)@.len() <= i < final(garbages)@.len() ==> {
+                        let g = #[trigger] final(garbages)@[i];
+                        &&& (g.0 == Event::Evict || g.0 == Event::Replace)
+                        &&& old(self).view().contains_key(g.1.spec_key()) && old(self).view()[g.1.spec_key()] == g.1
+                        &&& (g.0 == Event::Replace ==> g.1.spec_key() == record.spec_key() && i == final(garbages)@.len() - 1)
+                        &&& (g.0 == Event::Evict && g.1.spec_key() != record.spec_key() ==> !final(self).view().contains_key(g.1.spec_key()))
+                    }
+                &&& final(garbages)@.len() - old(garbages)@.len() == old(self).view().dom().len() + 1 - final(self).view().dom().len()
+            }, // @label garbage_is_exactly_the_records_that_left
+//@after /\.unwrap_or_default\(\);/
+        let ghost view_in = self.indexer.view();
+        let ghost ev_in = self.eviction.contents();
+        proof {
+            axiom_key_self_equivalent::<E::Key>(record.spec_key());
+            if view_in.contains_key(record.spec_key()) { lemma_wsum_remove(view_in, record.spec_key()); }
+            else { assert(view_in.remove(record.spec_key()) =~= view_in); }
+        }
+//@before /record\.inc_refs\(notifiers\.len\(\) \+ 1\);\s*\n\s*garbages\.push\(\(Event::Remove, record\)\);/
+            proof {
+                let view1 = self.indexer.view();
+                assert(view1.dom() =~= view_in.dom().remove(record.spec_key()));
+                if view_in.contains_key(record.spec_key()) {
+                    Self::lemma_remove_keeps_eviction_subset(view_in, view1, ev_in, self.eviction.contents(), record.spec_key(), view_in[record.spec_key()]);
+                    assert(self.eviction.contents() =~= ev_in.remove(view_in[record.spec_key()].id()));
+                }
+            }
+//@before /\/\/ Insert new record/
+        let ghost view_e = self.indexer.view();
+        let ghost ev_e = self.eviction.contents();
+        let ghost vic_e = self.eviction.victims();
+        let ghost g_e = garbages@;
+        let ghost usage_e = self.usage;
+        proof {
+            if view_e.contains_key(record.spec_key()) { lemma_wsum_remove(view_e, record.spec_key()); }
+            lemma_wsum_insert(view_e, record.spec_key(), record);
+            assert(forall|k: E::Key| view_e.contains_key(k) ==> (#[trigger] view_e[k]).id() != record.id());
+        }
+//@before /assert!\(self\.indexer\.holds\(&record\)\);/
+        proof {
+            let view1 = self.indexer.view();
+            assert(view1 == view_e.insert(record.spec_key(), record));
+            if view_e.contains_key(record.spec_key()) {
+                assert(view1.dom() =~= view_e.dom());
+                assert(view_e.remove(record.spec_key()) =~= view1.remove(record.spec_key()));
+            } else {
+                assert(view1.dom() =~= view_e.dom().insert(record.spec_key()));
+                assert(view_e.remove(record.spec_key()) =~= view_e);
+            }
+            assert(!self.eviction.contents().contains(record.id()));
+        }
+//@after /self\.usage \+= weight;/
+        proof {
+            let view1 = self.indexer.view();
+            assert forall|id: int| #[trigger] self.eviction.contents().contains(id) implies
+                exists|k: E::Key| view1.contains_key(k) && (#[trigger] view1[k]).id() == id by {
+                if id == record.id() {
+                    assert(view1.contains_key(record.spec_key()) && view1[record.spec_key()].id() == id);
+                } else {
+                    assert(ev_e.contains(id));
+                    let k = choose|k: E::Key| view_e.contains_key(k) && (#[trigger] view_e[k]).id() == id;
+                    if k == record.spec_key() {
+                        // the replaced old copy was removed from the container above
+                        assert(false);
+                    }
+                    assert(view1.contains_key(k) && view1[k].id() == id);
+                }
+            }
+        }
 //@end
 
 } // impl
